@@ -120,14 +120,19 @@ pub struct Side {
     /// Status seen when the peer's FIN was first observed as consumed, and whether (c) was checked
     pub fin_seen: bool,
     pub rst_emitted: bool,
-    /// Highest right window edge learnt from the peer (reference tracker for C17), as (ack, wnd)
-    pub last_status: Option<State>,
+    /// The TCB came from LISTEN (a reset in SYN-RECEIVED returns it to LISTEN)
+    pub passive: bool,
+    /// An RST segment has at some point been put in flight towards this side
+    pub rst_incoming: bool,
+    /// `close()` returned Ok
+    pub close_ok: bool,
+    /// Bytes accepted by `send` that were still unsegmentized when `close()` returned Ok
+    pub unseg_at_close: usize,
 }
 
 impl Side {
     fn new(life: Life) -> Self {
         Self {
-            life,
             tcb: None,
             written: vec![],
             read: vec![],
@@ -138,7 +143,11 @@ impl Side {
             written_at_close: None,
             fin_seen: false,
             rst_emitted: false,
-            last_status: None,
+            passive: matches!(life, Life::Listen),
+            rst_incoming: false,
+            close_ok: false,
+            unseg_at_close: 0,
+            life,
         }
     }
     pub fn snap(&self) -> Option<VerifSnapshot> {
@@ -317,6 +326,7 @@ impl Sys {
         for seg in &out {
             if seg.header.ctl.rst() {
                 self.side[s].rst_emitted = true;
+                self.side[1 - s].rst_incoming = true;
             }
             self.net[1 - s].push(NetSeg {
                 seg: seg.clone(),
@@ -344,6 +354,24 @@ impl Sys {
 
     /// Hands one segment to side `s` (LISTEN, CLOSED or a live TCB), as `Tcp::demux` would.
     pub fn deliver_to(&mut self, cfg: &Cfg, s: usize, seg: Segment) -> CallInfo {
+        let tr = trace_on();
+        let rendered = if tr { render_seg(&seg) } else { String::new() };
+        let info = self.deliver_to_inner(cfg, s, seg);
+        if tr {
+            eprintln!(
+                "    deliver to {} {} : {:?} -> {:?}{}   | {}",
+                if s == A { "A" } else { "B" },
+                rendered,
+                info.before,
+                info.after,
+                if info.released { " RELEASED" } else { "" },
+                self.describe()
+            );
+        }
+        info
+    }
+
+    fn deliver_to_inner(&mut self, cfg: &Cfg, s: usize, seg: Segment) -> CallInfo {
         let mut info = CallInfo {
             side: s,
             entry: "segment_arrives",
@@ -365,6 +393,13 @@ impl Sys {
                         // the session stops without another segments() call
                         info.released = true;
                         self.release(s, "segment_arrives");
+                        if self.side[s].passive && info.before == Some(State::SynReceived) {
+                            // RFC 9293 figure 5, note 1: a reset in SYN-RECEIVED returns a
+                            // passively opened endpoint to LISTEN
+                            self.side[s].life = Life::Listen;
+                            self.side[s].close_called = false;
+                            self.side[s].close_ok = false;
+                        }
                     }
                 }
             }
@@ -379,6 +414,7 @@ impl Sys {
                     Some(ListenResult::Response(h)) => {
                         if h.ctl.rst() {
                             self.side[s].rst_emitted = true;
+                            self.side[1 - s].rst_incoming = true;
                         }
                         self.net[1 - s].push(NetSeg {
                             seg: Segment::new(h, Message::default()),
@@ -395,6 +431,9 @@ impl Sys {
                 if let Some(h) =
                     segment_arrives_closed(seg.header, seg.text.len() as u32, local, remote)
                 {
+                    // a CLOSED endpoint answering a stray segment with RST is not a connection
+                    // being reset: only the in-flight flag is set
+                    self.side[1 - s].rst_incoming = true;
                     self.net[1 - s].push(NetSeg {
                         seg: Segment::new(h, Message::default()),
                         abs_seq: !had_ack,
@@ -480,16 +519,25 @@ impl Sys {
             }
             Act::Close(s) => {
                 let before = self.side[s].status();
-                self.side[s].close_called = true;
-                self.side[s].written_at_close = Some(self.side[s].written.len());
                 entering("Tcb::close");
                 let r = self.side[s].tcb.as_mut().unwrap().close();
+                if r == CloseResult::Ok {
+                    // a refused close (e.g. in SYN-SENT) is reported to the caller as an error
+                    // and leaves the application free to go on
+                    self.side[s].close_called = true;
+                    self.side[s].written_at_close = Some(self.side[s].written.len());
+                    self.side[s].unseg_at_close =
+                        self.side[s].snap().map(|x| x.unsegmentized).unwrap_or(0);
+                }
                 let mut info = CallInfo {
                     side: s,
                     entry: "close",
                     before,
                     ..Default::default()
                 };
+                if r == CloseResult::Ok {
+                    self.side[s].close_ok = true;
+                }
                 if r == CloseResult::CloseConnection {
                     info.released = true;
                     self.release(s, "close");
@@ -530,7 +578,7 @@ impl Sys {
             let side = &self.side[s];
             let _ = write!(
                 out,
-                "|{:?} {:?} w{} r{:?} wd{} t{} s{} c{} f{} rst{}",
+                "|{:?} {:?} w{} r{:?} wd{} t{} s{} c{}{} f{} rst{}{}",
                 side.life,
                 side.tcb,
                 side.written.len(),
@@ -539,9 +587,12 @@ impl Sys {
                 side.ticks_done,
                 side.steps_done,
                 side.close_called,
+                side.close_ok,
                 side.fin_seen,
                 side.rst_emitted,
+                side.rst_incoming,
             );
+            let _ = write!(out, "u{}", side.unseg_at_close);
         }
         for d in [A, B] {
             let mut v: Vec<_> = self.net[d].iter().map(seg_sort_key).collect();
@@ -704,6 +755,22 @@ impl Sys {
         true
     }
 
+    /// Like [`settled`] but a released TCB counts as quiet.
+    pub fn settled_or_released(&self) -> bool {
+        for s in [A, B] {
+            if let Some(sn) = self.side[s].snap() {
+                if sn.snd_una != sn.snd_nxt
+                    || sn.retransmit_len != 0
+                    || sn.unsegmentized != 0
+                    || sn.incoming_segments != 0
+                {
+                    return false;
+                }
+            }
+        }
+        true
+    }
+
     fn unsettled_reason(&self) -> (String, String) {
         for s in [A, B] {
             let r = &self.side[s].read;
@@ -803,6 +870,10 @@ pub fn classify_stream(read: &[u8], written: &[u8]) -> &'static str {
         return "bytes-reordered";
     }
     "bytes-skipped-or-foreign"
+}
+
+pub fn trace_on() -> bool {
+    std::env::var_os("VERIF_TRACE").is_some()
 }
 
 thread_local! {
